@@ -67,6 +67,25 @@ def generate(tier, rng):
     yield Script(cfg, fr, "udp6-zero-checksum-solver")
 
 
+    # IPv4 header checksum at its carry boundaries: the low 16 bits of the peer address sweep every value, so the
+    # one's-complement sum of the reply header passes through every residue, including the ones where folding the
+    # carries carries again (whatever the constant fields of the reply header are)
+    import struct as _st
+    hi = bytes([198, 18])          # large enough for the header sum to cross 0x1ffff while the low word sweeps
+    fr = [gens.echo4(hi + _st.pack("!H", x), gens.SELF4, data=b"ck") for x in range(65536)]
+    yield Script(cfg, fr, "ipv4-header-checksum-sweep:echo")
+    win = set()
+    for ttl in (32, 64, 128, 255):                       # directed windows for the 40-byte SYN-ACK header
+        k = 0x4500 + 40 + 0x4000 + (ttl << 8 | 6) + sum(_st.unpack("!HH", net.ip_bytes(gens.SELF4))) + _st.unpack("!H", hi)[0]
+        for d in range(-40, 9):
+            win.add((0x10000 * 8 + d - k) & 0xFFFF)
+    fr = [net.frame_tcp(hi + _st.pack("!H", x), gens.SELF4, 40000, 443, 7, 0, 0x02) for x in sorted(win)]
+    yield Script(cfg, fr, "ipv4-header-checksum-window:syn")
+    if tier == "thorough":
+        yield Script(cfg, [net.frame_tcp(hi + _st.pack("!H", x), gens.SELF4, 40000, 443, 7, 0, 0x02) for x in range(65536)],
+                     "ipv4-header-checksum-sweep:syn")
+        yield Script(cfg, [net.frame_udp(hi + _st.pack("!H", x), gens.SELF4, 4000, 53, gens.dns_query()) for x in range(65536)],
+                     "ipv4-header-checksum-sweep:dns")
     yield Script(cfg, gens.hostile_requests(rng), "hostile-requests")
     yield Script(Cfg(self_ips=[gens.SELF4, gens.SELF6], key=(5, 6)), gens.hostile_requests(rng), "hostile-requests:self-ips")
 
